@@ -35,7 +35,8 @@ With(F, id, kind, ps) == (id :> Node(kind, ps)) @@ F
 WinParts(F, id) == {BytesPart(id, w[1], w[2]) : w \in Wins(SizeOf(F, id))}
 
 GTrees ==
-  CASE GMode = "g1" -> {With(GBase, Root, "file", ps) : ps \in SeqsUpTo(AllLeaves, 3) \cup {<<>>}}
+  CASE GMode = "g1" -> {With(GBase, Root, "file", ps) :
+                           ps \in SeqsUpTo(AllLeaves, IF GWide THEN 3 ELSE 2) \cup [1..3 -> KeyLeaves \cup {BlobPart(2, 0, 3)}] \cup {<<>>}}
     [] GMode = "g2" ->
          UNION {LET F2 == With(GBase, 102, "bytes", p2) IN
                 {With(F2, Root, "file", pre \o <<w>> \o post) : pre \in Around, post \in Around, w \in WinParts(F2, 102)}
